@@ -7,11 +7,23 @@ nested call such as `self._remove_expired_documents()` appears as ONE step).  Lo
 `iterBegin d, (iterNext d, body)*, iterEnd d` becomes `forBegin d, body, forEnd d` when all
 bodies agree (an iteration over `_documents` with empty bodies is the atomic `collect`), and a
 run of identical blocks whose keys are the ids collected before becomes `collBegin, block,
-collEnd`.  Anything that does not fit is emitted as `.unknown` for that method.
+collEnd`.
+
+The snapshot idiom `for x in list(d.values()): body` is recognised as ONE atomic action followed
+by a loop over the thread's own list: every `next()` on the dict iterator is issued by one C call
+(`list(...)`: the frame that owns the iterator sits at a CALL instruction all the time, no
+bytecode of store.py runs between two elements — under the GIL no other thread can get in), and
+the blocks that follow use the snapshotted VALUES one after the other (checked by object
+identity): `snapBegin d, block, snapEnd d`.  An iteration driven by FOR_ITER (a `for` statement
+or a comprehension over the live dict) is NOT that: it stays `forBegin d, body, forEnd d`, the
+iteration the model can interrupt.  Anything that does not fit is emitted as `.unknown` for that
+method.
 """
 import collections
 import contextlib
 import datetime
+import dis
+import sys
 
 from mongomock import store as mstore
 
@@ -27,6 +39,19 @@ METHODS = collections.OrderedDict([
 OLD = datetime.datetime(2000, 1, 1)
 
 
+def _driver_of_next():
+    """what asks the recording iterator for its next element: 'call' when the nearest Python frame
+    (the C caller has none) is executing a CALL* instruction — `list(it)`, `tuple(it)`, … consume
+    the iterator inside one C call — and 'for' when it is executing FOR_ITER or anything else"""
+    f = sys._getframe(2)
+    op = None
+    for ins in dis.get_instructions(f.f_code):
+        if ins.offset > f.f_lasti:
+            break
+        op = ins.opname
+    return 'call' if op is not None and op.startswith('CALL') else 'for'
+
+
 class RecIter(object):
     def __init__(self, it, name, log, keyof):
         self.it, self.name, self.log, self.keyof = it, name, log, keyof
@@ -36,12 +61,13 @@ class RecIter(object):
         return self
 
     def __next__(self):
+        via = _driver_of_next()
         try:
             x = next(self.it)
         except StopIteration:
-            self.log.append(('iterEnd', self.name))
+            self.log.append(('iterEnd', self.name, via))
             raise
-        self.log.append(('iterNext', self.name, self.keyof(x)))
+        self.log.append(('iterNext', self.name, self.keyof(x), via))
         return x
 
 
@@ -78,8 +104,12 @@ def _rec_dict_class(base):
             return base.pop(self, k, *d)
 
         def values(self):
+            if self._c19[0] == 'docs':
+                return RecIter(iter(base.values(self)), self._c19[0], self._c19[1],
+                               lambda v: v.get('_id') if isinstance(v, dict) else None)
+            # index specifications have no id of their own: identify them by object identity
             return RecIter(iter(base.values(self)), self._c19[0], self._c19[1],
-                           lambda v: v.get('_id') if isinstance(v, dict) else None)
+                           lambda v: ('obj', id(v)))
 
         def items(self):
             return RecIter(iter(base.items(self)), self._c19[0], self._c19[1], lambda kv: kv[0])
@@ -238,10 +268,12 @@ def top_level(events):
     return out
 
 
-def fold_loops(evs):
-    """fold iterBegin/iterNext/iterEnd into forBegin/body/forEnd or collect; returns
-    (events, ids collected by the last `collect`)"""
+def fold_loops(evs, snaps=None):
+    """fold iterBegin/iterNext/iterEnd into forBegin/body/forEnd, collect or snapshot; returns
+    (events, ids collected by the last `collect`); the values taken by a `snapshot d` are stored
+    in `snaps[d]`"""
     out, collected, i = [], None, 0
+    snaps = {} if snaps is None else snaps
     while i < len(evs):
         ev = evs[i]
         if ev[0] != 'iterBegin':
@@ -252,7 +284,7 @@ def fold_loops(evs):
             continue
         d = ev[1]
         j = i + 1
-        bodies, keys, cur, started = [], [], [], False
+        bodies, keys, cur, started, vias = [], [], [], False, []
         while j < len(evs) and not (evs[j][0] == 'iterEnd' and evs[j][1] == d):
             if evs[j][0] == 'iterBegin' and evs[j][1] == d:
                 raise Untranslatable('nested iteration over one dict')
@@ -261,6 +293,7 @@ def fold_loops(evs):
                     bodies.append(cur)
                 started, cur = True, []
                 keys.append(evs[j][2])
+                vias.append(evs[j][3])
             else:
                 if not started:
                     raise Untranslatable('event before first element')
@@ -268,16 +301,23 @@ def fold_loops(evs):
             j += 1
         if j == len(evs):
             raise Untranslatable('iteration not finished')
+        vias.append(evs[j][2])
         if started:
             bodies.append(cur)
         if len(bodies) < 2:
             raise Untranslatable('loop observed with fewer than two elements')
-        folded = [fold_loops(b)[0] for b in bodies]
+        folded = [fold_loops(b, snaps)[0] for b in bodies]
         if any(b != folded[0] for b in folded):
             raise Untranslatable('loop bodies differ')
         if not folded[0] and d == 'docs':
             out.append(('collect',))
             collected = keys
+        elif not folded[0] and all(v == 'call' for v in vias):
+            # the whole dict is read by one C call: an atomic snapshot of its values
+            if d in snaps:
+                raise Untranslatable('two snapshots of one dict')
+            out.append(('snapshot', d))
+            snaps[d] = keys
         else:
             out += [('forBegin', d)] + folded[0] + [('forEnd', d)]
         i = j + 1
@@ -320,6 +360,42 @@ def fold_collected(evs, collected, expired_expected):
     return head + [('collBegin',)] + blocks[0] + [('collEnd',)]
 
 
+def fold_snapshots(evs, snaps):
+    """`snapshot d` followed by one block per snapshotted value, block i using exactly the i-th
+    value (as the argument of a nested call) → `snapBegin d, block, snapEnd d`"""
+    for d, vals in snaps.items():
+        at = [i for i, e in enumerate(evs) if e == ('snapshot', d)]
+        if len(at) != 1:
+            raise Untranslatable('snapshot of %s not at top level' % d)
+        head, tail = evs[:at[0]], evs[at[0] + 1:]
+        k = len(vals)
+        if k < 2 or len(set(vals)) != k:
+            raise Untranslatable('snapshot observed with fewer than two distinct values')
+
+        def uses(ev):
+            return [v for v in vals if ev[0] == 'call' and isinstance(ev[2], dict)
+                    and ('obj', id(ev[2])) == v]
+
+        done = False
+        for n in range(1, len(tail) // k + 1):
+            blocks = [tail[i * n:(i + 1) * n] for i in range(k)]
+            ok = all(sorted(set(sum((uses(e) for e in b), []))) == [vals[i]]
+                     for i, b in enumerate(blocks))
+            if not ok:
+                continue
+            abstract = [[('call', e[1], None) if uses(e) else e for e in b] for b in blocks]
+            if any(b != abstract[0] for b in abstract):
+                continue
+            if any(uses(e) for e in tail[k * n:]):
+                continue
+            evs = head + [('snapBegin', d)] + abstract[0] + [('snapEnd', d)] + tail[k * n:]
+            done = True
+            break
+        if not done:
+            raise Untranslatable('cannot split the blocks over the snapshot of ' + d)
+    return evs
+
+
 def to_dsteps(evs, key):
     steps = []
     for ev in evs:
@@ -338,7 +414,7 @@ def to_dsteps(evs, key):
             steps.append('.%s .%s %s' % (k, ev[1], ck))
         elif k == 'collect':
             steps.append('.collect')
-        elif k in ('forBegin', 'forEnd'):
+        elif k in ('forBegin', 'forEnd', 'snapBegin', 'snapEnd'):
             steps.append('.%s .%s' % (k, ev[1]))
         elif k == 'yield':
             steps.append('.yield')
@@ -368,7 +444,9 @@ def extract():
                 raise Untranslatable('method missing')
             events, key = run_method(pyname)
             evs = top_level(events)
-            evs, collected = fold_loops(evs)
+            snaps = {}
+            evs, collected = fold_loops(evs, snaps)
+            evs = fold_snapshots(evs, snaps)
             evs = fold_collected(evs, collected, {0, 2})
             res[lname] = to_dsteps(evs, key)
         except Untranslatable as e:
